@@ -20,7 +20,7 @@ from typing import Any, Dict, List, Optional, Tuple
 
 from ..core import Ctx, MachineryError, chunks, tla
 
-KINDS = ["docstr", "def", "adef", "cm", "sm", "prop", "setter", "class", "exc", "assign", "oldcm", "oldsm", "if", "ifmain", "try", "with", "for", "while", "mivar", "mivard"]
+KINDS = ["docstr", "def", "adef", "cm", "sm", "prop", "setter", "class", "exc", "assign", "oldcm", "oldsm", "if", "ifmain", "try", "with", "for", "while", "mivar", "mivard", "del"]
 CFG = """SPECIFICATION Spec
 CONSTANTS MaxN = {maxn}
   Names = {names}
@@ -90,6 +90,9 @@ def render(p: Dict[str, Any]) -> str:
             return
         elif k == "docstr":
             out.append(f"{sp}'''adoc:{i}'''")
+            return
+        elif k == "del":
+            out.append(f"{sp}del {name}")
             return
         elif k in ("mivar", "mivard"):
             # a method named after its node whose body assigns the instance variable (and documents it with a bare string)
@@ -354,6 +357,45 @@ def kf_setter_member(w: Dict[str, Any]) -> bool:
                             and d["got"].get("node") and p["kind"][d["got"]["node"] - 1] == "setter" for d in ds)
 
 
+def kf_del_ignored(w: Dict[str, Any]) -> bool:
+    """Known finding: `del name` is not seen by the builder (no visit_Delete): what the name designated before stays documented,
+    with everything below it when it is a class.  Matches only when EVERY difference is a documented object (or lies in the
+    namespace of a class) that a later `del` of the same scope removes and that Python does not bind again."""
+    p = w["program"]
+    if not w["diff"] or "del" not in p["kind"]:
+        return False
+    parent, kind, nm = p["parent"], p["kind"], p["nm"]
+
+    def scope_of(i: int) -> int:
+        q = parent[i - 1]
+        while q and kind[q - 1] not in ("class", "exc", "def", "adef", "cm", "sm", "prop", "setter"):
+            q = parent[q - 1]
+        return q
+    deleted = set()
+    for d in w["diff"]:
+        exp, got = d.get("expected"), d.get("got")
+        if d.get("what") or exp is not None or not got or got.get("node") is None:
+            continue
+        j = got["node"]
+        if any(kind[k - 1] == "del" and nm[k - 1] == d["name"] and scope_of(k) == d["scope"] and k > j for k in range(1, p["n"] + 1)):
+            deleted.add(j)
+
+    def under(s: int) -> bool:
+        while s:
+            if s in deleted:
+                return True
+            s = parent[s - 1]
+        return False
+    for d in w["diff"]:
+        exp, got = d.get("expected"), d.get("got")
+        if exp is None and got and got.get("node") in deleted and not d.get("what"):
+            continue
+        if exp is None and under(d["scope"]):
+            continue
+        return False
+    return bool(deleted)
+
+
 def kf_adoc_not_adjacent(w: Dict[str, Any]) -> bool:
     """Known finding: ASTBuilder.currentAttr survives flow statements, `pass`, imports and property definitions, so a bare
     string that does NOT immediately follow the assignment still documents the variable, and a string after a property
@@ -380,6 +422,7 @@ def run(ctx: Ctx) -> int:
     ctx.register_matcher("attribute-docstring-not-adjacent", kf_adoc_not_adjacent)
     ctx.register_matcher("assignment-after-definition-ignored", kf_assign_after_def)
     ctx.register_matcher("property-setter-documented-as-extra-member", kf_setter_member)
+    ctx.register_matcher("del-statement-not-seen", kf_del_ignored)
     maxn = 2 if ctx.quick else 3
     names = ["a", "b"]
     r = ctx.tlc("Builder", CFG.format(maxn=maxn, names=tla(set(names)), kinds=tla(set(KINDS))), workers="auto", check=True,
@@ -397,6 +440,9 @@ def run(ctx: Ctx) -> int:
         r4 = ctx.tlc("Builder", CFG.format(maxn=4, names=tla({"a", "b"}), kinds=tla({"assign", "docstr", "try"})), workers="auto", check=True, timeout=3000)
         progs = progs + [p for p in r4.printed if p["n"] == 4]
         # instance variables: methods assigning self.<name> before and after definitions / class variables / properties of that name
+        # names unbound again by `del`
+        r3d = ctx.tlc("Builder", CFG.format(maxn=3, names=tla({"a", "b"}), kinds=tla({"class", "assign", "del", "docstr"})), workers="auto", check=True, timeout=3000)
+        progs = progs + [p for p in r3d.printed if "del" in p["kind"]]
         r4i = ctx.tlc("Builder", CFG.format(maxn=4, names=tla({"a"}), kinds=tla({"class", "def", "assign", "prop", "mivar", "mivard"})), workers="auto", check=True, timeout=3000)
         progs = progs + [p for p in r4i.printed if any(k in ("mivar", "mivard") for k in p["kind"])]
     else:
@@ -404,6 +450,8 @@ def run(ctx: Ctx) -> int:
         r4 = ctx.tlc("Builder", CFG.format(maxn=4, names=tla({"a"}), kinds=tla({"docstr", "def", "cm", "prop", "setter", "class", "assign", "oldsm", "if", "ifmain"})),
                      workers="auto", check=True, timeout=6000)
         progs = progs + [p for p in r4.printed if p["n"] == 4]
+        r4d = ctx.tlc("Builder", CFG.format(maxn=4, names=tla({"a", "b"}), kinds=tla({"class", "def", "assign", "del", "docstr", "if"})), workers="auto", check=True, timeout=6000)
+        progs = progs + [p for p in r4d.printed if "del" in p["kind"]]
         r5i = ctx.tlc("Builder", CFG.format(maxn=5, names=tla({"a"}), kinds=tla({"class", "def", "assign", "prop", "setter", "docstr", "mivar", "mivard"})), workers="auto", check=True, timeout=6000)
         progs = progs + [p for p in r5i.printed if any(k in ("mivar", "mivard") for k in p["kind"])]
     ctx.extra["programs_with_instance_variables"] = sum(1 for p in progs if any(k in ("mivar", "mivard") for k in p["kind"]))
